@@ -233,7 +233,7 @@ class _Conn:
 
 
 @rigged
-def collector_stream(src, k=5):
+def collector_stream(src, k=5, bystanders=True):
     """H20c: the real ProcessStatisticsCollector (process list, pid changes, transient psutil failures) feeding the real
     ProcStatisticsCompiler: once a process has stopped and the collector has been told (pid 0) or has noticed, no
     history of it remains"""
@@ -251,6 +251,12 @@ def collector_stream(src, k=5):
         collector.supervisor_process = {'last': 0, 'supervisor': fake.Process(), 'collector': fake.Process()}
         comp = ProcStatisticsCompiler(_Opts([period], 3), RecLogger())
         ident, ns = '10.0.0.1:25000', 'app:p'
+        # other programs of the same Supervisor that run all along: what happens to 'p' must not disturb their
+        # collection (a process that leaves the list would never get its pid-0 report: its history would stay for ever)
+        others = {f'app:other{j}': 50 + j for j in range(src.pick_int('other_processes', 0, 2))} if bystanders else {}
+        fake.alive = set(others.values())
+        for other_ns, other_pid in others.items():
+            collector.update_process_list(other_ns, other_pid)
         running = None          # pid of the live process
         told_stopped = True     # the collector knows (event) or has noticed (sampling) that nothing runs
         sampled = False
@@ -270,22 +276,25 @@ def collector_stream(src, k=5):
             CLOCK[0].advance(period)
             if what == 'start' or what == 'restart':
                 pid = 100 + i
-                fake.alive = {pid}
+                fake.alive = {pid} | set(others.values())
                 running = pid
                 collector.update_process_list(ns, pid)      # RUNNING event carries the pid
                 told_stopped = False
             elif what == 'stop':
-                fake.alive = set()
+                fake.alive = set(others.values())
                 running = None
                 collector.update_process_list(ns, 0)        # any other state: pid 0
                 told_stopped = True
             elif what == 'die_silently':
-                fake.alive = set()
+                fake.alive = set(others.values())
                 running = None
             else:
                 fake.next_outcome = src.pick(f'psutil{i}', ['ok', 'oserror']) if running else 'ok'
-                had = bool(collector.processes)
-                collector.collect_recent_process()
+                had = any(p['namespec'] == ns for p in collector.processes)
+                # the collector's main loop samples until nothing is ready any more (every entry is, one period later)
+                for _ in range(len(collector.processes) + 1):
+                    if not collector.collect_recent_process():
+                        break
                 if running is None and had:
                     told_stopped = True                      # the sampling met NoSuchProcess
             forward()
@@ -301,6 +310,17 @@ def collector_stream(src, k=5):
                 src.check('running-process-still-collected', any(p['namespec'] == ns and p['process'].pid == running
                                                                  for p in collector.processes),
                           sig=f'collector:after-{what}', step=i)
+            for other_ns, other_pid in others.items():
+                src.check('running-process-still-collected',
+                          any(p['namespec'] == other_ns and p['process'].pid == other_pid for p in collector.processes),
+                          sig=f'collector:bystander-after-{what}', step=i, namespec=other_ns)
+        # the bystanders stop at the end: each stop is reported to the compiler (pid 0), so that its history goes
+        for other_ns in others:
+            fake.alive = fake.alive - {others[other_ns]}
+            collector.update_process_list(other_ns, 0)
+            src.check('stop-reported-to-the-compiler', any(isinstance(x, dict) and x.get('namespec') == other_ns
+                                                            and x.get('pid') == 0 for x in conn.sent),
+                      sig='collector:bystander', namespec=other_ns, sent=[str(x)[:80] for x in conn.sent])
         src.reach('streamed')
     finally:
         COL.psutil = saved
